@@ -7,8 +7,11 @@ the model's step machine; Progress.track with and without the helper thread.
 Direct evaluation (3d): the statement of C12 on rich's own task objects with a spec-level tracker
 (lib_progress.Spec) that knows nothing of the Lean model.
 """
+import collections
 import io
 import itertools
+import multiprocessing
+import random
 
 import lib_progress as lp
 
@@ -22,8 +25,8 @@ CLOCK_OUTSIDE = 0
 MAXLEN = 1000  # the literal in `while len(_progress) > 1000`
 
 
-def cfg_str(period, T):
-    return f"{period} {MAXLEN} {T} {CLOCK_OUTSIDE}"
+def cfg_str(period, T, terminal=False):
+    return f"{period} {MAXLEN} {T} {CLOCK_OUTSIDE} {lp.REFRESH_READS if terminal else 0}"
 
 
 class LazyClock(lp.Clock):
@@ -52,13 +55,28 @@ class LazyClock(lp.Clock):
 
 
 def snapshot(p):
-    return {t.id: (t.started, t.finished_time) for t in p.tasks}
+    return {t.id: (t.started, t.finished_time, t.stop_time is not None) for t in p.tasks}
 
 
-def run_history(ctx, u, period, clock, ops_iter, site, shape, sample=None, obs_of=None):
+def book(spec, op, u, before, res):
+    """spec book-keeping for an operation that returned `res`"""
+    if res != "ok":
+        return
+    op = lp.norm(op)
+    if op[0] == "A":
+        spec.apply(op, u, False, real_id=lp.LAST["add_id"])
+    elif op[0] in "FBE":
+        return
+    else:
+        b = before.get(op[1], (False, None, False))
+        spec.apply(op, u, b[0], stopped_before=b[2])
+
+
+def run_history(ctx, u, period, clock, ops_iter, site, shape, sample=None, obs_of=None, terminal=False):
     """Execute operations on a real Progress, dump after each, queue the model request, evaluate the
-    statement directly."""
-    p = lp.make_progress(clock, period, u)
+    statement directly.  `terminal`: the console is a terminal, so every refresh() really renders (and
+    reads the clock 5 times per visible task, which the model has to follow)."""
+    p = lp.make_progress(clock, period, u, terminal=terminal)
     spec = lp.Spec()
     enc, ans, done = [], [], []
     for n, op in enumerate(ops_iter(p)):
@@ -67,11 +85,9 @@ def run_history(ctx, u, period, clock, ops_iter, site, shape, sample=None, obs_o
         res = lp.apply_op(p, op, u, glue=n)
         k_after = clock.k
         done.append(op)
-        if res == "ok":
-            tgt = None if op[0] == "A" else op[1]
-            spec.apply(op, u, before.get(tgt, (False, None))[0])
+        book(spec, op, u, before, res)
         lp.evaluate(ctx, p, spec, op, res, before, site, lp.Lazy(lambda d=done, m=len(done), c=clock: [lp.enc_op(o) for o in d[:m]] + [f"A={u.A} T={u.T} period={period} clock={c.readings[:c.k]}"]))
-        head = f"{res}@{k_after}@{'1' if p.finished else '0'}"
+        head = f"{res}@{k_after}@{'1' if p.finished else '0'}{'1' if p._started else '0'}"
         if obs == "d":
             head += "#" + lp.dump(p, u)
         elif obs == "e":
@@ -79,8 +95,10 @@ def run_history(ctx, u, period, clock, ops_iter, site, shape, sample=None, obs_o
         enc.append(lp.enc_op(op) + " " + obs)
         ans.append(head)
         ctx.note(f"op:{op[0]}:{res}")
-    ctx.case("pg_hist", [cfg_str(period, u.T), clock.enc(), ";".join(enc)], ";".join(ans), shape=shape,
-             sample=sample or "history " + "; ".join(enc[:6]))
+    if p._started:
+        p.stop()
+    ctx.case("pg_hist", [cfg_str(period, u.T, terminal), clock.enc(), ";".join(enc)], ";".join(ans),
+             shape=shape + ("T" if terminal else ""), sample=sample or "history " + "; ".join(enc[:6]))
     return p
 
 
@@ -95,29 +113,31 @@ def alphabet():
         ("U", 0, None, None, -1, None, False),
         ("R", 0, True, None, 0, None), ("R", 0, False, 2, 4, True),
         ("P", 0), ("S", 0),
-        ("A", False, 2, 2, True), ("V", 1, 2), ("D", 0),
+        ("A", False, 2, 2, True, 3, [(1, 5)]), ("V", 1, 2), ("D", 0),
+        ("U", 0, None, None, 2, False, True, 7, [(1, 9), (2, 4)]), ("R", 0, True, None, 2, None, 4, [(2, 1)]),
+        ("F",), ("B",), ("E",),
     ]
 
 
-def exhaustive(ctx):
+def exhaustive_part(ctx, L, first_index):
+    """all histories of length L whose first operation is alphabet()[first_index]"""
     alpha = alphabet()
-    depth = 3 if ctx.quick else 4
     u = lp.Units(2, 2)
     cycles = [[1], [3, 0, 4, 5, 1], [0]]
-    n = 0
-    for L in range(1, depth + 1):
-        for seq in itertools.product(alpha, repeat=L):
-            for ci, cyc in enumerate(cycles):
-                if (ci == 2 and L > 2) or (ci == 1 and L > 3):
-                    continue
-                first = ("A", (n % 7) != 3, 6, 0 if n % 5 else 2, True)
-                clock = LazyClock(u, None, cycle=cyc)
-                obs = "de"[(n // 3) % 2]
-                run_history(ctx, u, 4, clock, lambda p, s=seq, f=first: [f] + list(s), "seq-exhaustive", f"len{L}",
-                            obs_of=lambda i, o=obs: o if i % 2 else "d")
-                n += 1
-        ctx.flush()
-    return n
+    count = 0
+    for idx, rest in enumerate(itertools.product(alpha, repeat=L - 1)):
+        seq = (alpha[first_index],) + rest
+        for ci, cyc in enumerate(cycles):
+            n = (first_index * 7 + idx) * 3 + ci
+            if (ci == 2 and L > 2) or (ci == 1 and (L > 3 or (L == 3 and n % 2))):
+                continue
+            first = ("A", (n % 7) != 3, 6, 0 if n % 5 else 2, True, 1, [(1, 1)] if n % 2 else [])
+            clock = LazyClock(u, None, cycle=cyc)
+            obs = "de"[(n // 3) % 2]
+            run_history(ctx, u, 4, clock, lambda p, s=seq, f=first: [f] + list(s), "seq-exhaustive", f"len{L}",
+                        obs_of=lambda i, o=obs: o if i % 2 else "d", terminal=(n % 4 == 1))
+            count += 1
+    ctx.note("exhaustive-histories", count)
 
 
 # ------------------------------------------------------------------ 2. random adaptive histories
@@ -151,9 +171,21 @@ def pick_total(rng, u, huge):
     return rng.choice([1, A, 3 * A, 10 * A, 100 * A, rng.randint(1, 40 * A)])
 
 
+def pick_fields(rng):
+    if rng.random() < 0.6:
+        return []
+    ks = rng.sample([0, 1, 2, 3], rng.randint(1, 3))
+    return [(k, rng.randint(-3, 9)) for k in ks]
+
+
+def pick_desc(rng):
+    return rng.randint(0, 5) if rng.random() < 0.3 else None
+
+
 def random_ops(rng, u, length, huge, nonneg):
     def gen(p):
-        yield ("A", rng.random() < 0.85, pick_total(rng, u, huge), rng.choice([0, 0, 0, u.A, rng.randint(0, 8 * u.A)]), rng.random() < 0.9)
+        yield ("A", rng.random() < 0.85, pick_total(rng, u, huge), rng.choice([0, 0, 0, u.A, rng.randint(0, 8 * u.A)]), rng.random() < 0.9,
+               rng.randint(0, 5), pick_fields(rng))
         for _ in range(length):
             tasks = p.tasks
             ids = [t.id for t in tasks]
@@ -175,16 +207,20 @@ def random_ops(rng, u, length, huge, nonneg):
                     if nonneg:
                         adv = abs(adv)
                 vis = rng.choice([None, None, True, False])
-                yield ("U", tid, tot, comp, adv, vis, rng.random() < 0.3)
+                yield ("U", tid, tot, comp, adv, vis, rng.random() < 0.3, pick_desc(rng), pick_fields(rng))
             elif c < 0.72:
                 yield ("R", tid, rng.random() < 0.75, pick_total(rng, u, huge) if rng.random() < 0.4 else None,
-                       rng.choice([0, 0, u.A, rng.randint(0, 12 * u.A)]), rng.choice([None, None, True, False]))
-            elif c < 0.79:
+                       rng.choice([0, 0, u.A, rng.randint(0, 12 * u.A)]), rng.choice([None, None, True, False]),
+                       pick_desc(rng), pick_fields(rng))
+            elif c < 0.78:
                 yield ("P", tid)
-            elif c < 0.86:
+            elif c < 0.84:
                 yield ("S", tid)
+            elif c < 0.91:
+                yield ("A", rng.random() < 0.7, pick_total(rng, u, huge), rng.choice([0, 0, u.A, rng.randint(0, 8 * u.A)]), rng.random() < 0.9,
+                       rng.randint(0, 5), pick_fields(rng))
             elif c < 0.95:
-                yield ("A", rng.random() < 0.7, pick_total(rng, u, huge), rng.choice([0, 0, u.A, rng.randint(0, 8 * u.A)]), rng.random() < 0.9)
+                yield rng.choice([("F",), ("F",), ("B",), ("E",)])
             else:
                 yield ("D", tid)
 
@@ -196,7 +232,10 @@ def random_histories(ctx, count):
     for i in range(count):
         A = rng.choice([1, 1, 2, 4, 16])
         T = rng.choice([1, 2, 8, 64])
-        huge = A == 1 and rng.random() < 0.2
+        terminal = rng.random() < 0.35
+        # rendering a time estimate beyond timedelta's range raises OverflowError (TimeRemainingColumn):
+        # huge totals only where refresh() does not render
+        huge = A == 1 and not terminal and rng.random() < 0.25
         u = lp.Units(A, T, int_only=huge or (A == 1 and rng.random() < 0.5))
         period = rng.choice([0, 1, 3, 4, 8, 30 * T, 30 * T])
         incs = rng.choice([[0, 1, 2], [1], [0, 1, period, period + 1, max(period - 1, 0)], [0, 0, 1, 5 * T], [1, 2, 3, period]])
@@ -204,7 +243,8 @@ def random_histories(ctx, count):
         nonneg = rng.random() < 0.6
         length = rng.randint(1, 8) if rng.random() < 0.5 else rng.randint(8, 30)
         run_history(ctx, u, period, clock, random_ops(rng, u, length, huge, nonneg), "seq-random",
-                    f"A{A}T{T}{'H' if huge else ''}", obs_of=lambda n, r=rng.random(): "e" if (n * 7 + int(r * 10)) % 3 == 0 else "d")
+                    f"A{A}T{T}{'H' if huge else ''}", obs_of=lambda n, r=rng.random(): "e" if (n * 7 + int(r * 10)) % 3 == 0 else "d",
+                    terminal=terminal)
         ctx.note("hist:period%d" % (0 if period == 0 else 1 if period < 30 else 2))
     ctx.flush()
 
@@ -250,9 +290,14 @@ def choose(rng, strategy, sched, runnable, prio):
     return runnable[0]
 
 
-def thread_prog(rng, u, ids, length, nonneg):
+def thread_prog(rng, u, ids, length, nonneg, terminal=False):
     ops = []
+    if terminal and rng.random() < 0.2:  # what a _RefreshThread does: k wake-ups, each a refresh()
+        return [("F",)] * rng.randint(1, 3)
     for _ in range(length):
+        if rng.random() < 0.08:
+            ops.append(rng.choice([("B",), ("E",)] + ([("F",)] if terminal else [])))
+            continue
         tid = rng.choice(ids) if rng.random() < 0.92 else max(ids) + rng.randint(1, 2)
         c = rng.random()
         if c < 0.55:
@@ -263,15 +308,17 @@ def thread_prog(rng, u, ids, length, nonneg):
             tot = rng.choice([u.A, 4 * u.A, 10 * u.A, 0]) if r < 0.25 else None
             comp = rng.randint(0, 8 * u.A) if 0.2 < r < 0.45 else None
             adv = rng.randint(0 if nonneg else -3, 6 * u.A) if r > 0.4 else None
-            ops.append(("U", tid, tot, comp, adv, None, rng.random() < 0.2))
+            ops.append(("U", tid, tot, comp, adv, rng.choice([None, None, None, True, False]), rng.random() < 0.2,
+                        pick_desc(rng), pick_fields(rng)))
         elif c < 0.84:
-            ops.append(("R", tid, rng.random() < 0.8, None if rng.random() < 0.6 else 5 * u.A, rng.choice([0, u.A]), None))
+            ops.append(("R", tid, rng.random() < 0.8, None if rng.random() < 0.6 else 5 * u.A, rng.choice([0, u.A]), None,
+                        pick_desc(rng), pick_fields(rng)))
         elif c < 0.89:
             ops.append(("P", tid))
         elif c < 0.93:
             ops.append(("S", tid))
         elif c < 0.98:
-            ops.append(("A", rng.random() < 0.8, rng.choice([2 * u.A, 10 * u.A]), 0, True))
+            ops.append(("A", rng.random() < 0.8, rng.choice([2 * u.A, 10 * u.A]), 0, rng.random() < 0.8, rng.randint(0, 5), pick_fields(rng)))
         else:
             ops.append(("D", tid))
     return ops
@@ -293,18 +340,23 @@ def scheduled_run(ctx, nthreads, maxlen, fixed=None, force=None):
         r = force["clock"]
         clock = LazyClock(u, None, cycle=[b - a for a, b in zip([0] + r, r)] + [1] * 1000)
     clock.hook = lambda: sched.yield_point("r") if (sched.current() is not None and not lock.held()) else None
-    p = lp.make_progress(clock, period, u, lock=lock)
+    terminal = rng.random() < 0.5
+    if force:
+        terminal = bool(force.get("terminal", False))
+    p = lp.make_progress(clock, period, u, lock=lock, terminal=terminal)
     import rich.progress as rp
     unguarded = []
     orig_task = rp.Task
     rp.Task = lp.make_guarded_task_class(sched, lock, unguarded)
     try:
-        return _scheduled_run(ctx, rng, u, A, T, period, sched, lock, clock, p, unguarded, nthreads, maxlen, fixed)
+        return _scheduled_run(ctx, rng, u, A, T, period, sched, lock, clock, p, unguarded, nthreads, maxlen, fixed, terminal)
     finally:
         rp.Task = orig_task
+        if p._started:
+            p.stop()
 
 
-def _scheduled_run(ctx, rng, u, A, T, period, sched, lock, clock, p, unguarded, nthreads, maxlen, fixed):
+def _scheduled_run(ctx, rng, u, A, T, period, sched, lock, clock, p, unguarded, nthreads, maxlen, fixed, terminal):
     spec = lp.Spec()
     nonneg = rng.random() < 0.75
     if fixed:
@@ -312,12 +364,12 @@ def _scheduled_run(ctx, rng, u, A, T, period, sched, lock, clock, p, unguarded, 
     else:
         setup = [("A", rng.random() < 0.9, rng.choice([3 * A, 10 * A, 100 * A]), 0, True) for _ in range(rng.randint(1, 3))]
         ids = list(range(len(setup)))
-        progs = [thread_prog(rng, u, ids, rng.randint(1, maxlen), nonneg) for _ in range(nthreads)]
+        progs = [thread_prog(rng, u, ids, rng.randint(1, maxlen), nonneg, terminal) for _ in range(nthreads)]
         strategy = rng.choice(["uniform", "uniform", "readers-first", "pct"])
     done_ops = []
     for op in setup:
         res = lp.apply_op(p, op, u)
-        spec.apply(op, u, False)
+        book(spec, op, u, {}, res)
         done_ops.append(("setup", op))
     errs = [[] for _ in progs]
     unlocked = []
@@ -333,7 +385,7 @@ def _scheduled_run(ctx, rng, u, A, T, period, sched, lock, clock, p, unguarded, 
         return f
 
     commit_errs = []
-    inp = lambda: {"A": A, "T": T, "period": period, "setup": [lp.enc_op(o) for o in setup],
+    inp = lambda: {"A": A, "T": T, "period": period, "terminal": terminal, "setup": [lp.enc_op(o) for o in setup],
                    "threads": [[lp.enc_op(o) for o in pr] for pr in progs],
                    "schedule": " ".join(f"{k}{t}" for k, t in sched.events), "clock": list(clock.readings)}
 
@@ -344,9 +396,7 @@ def _scheduled_run(ctx, rng, u, A, T, period, sched, lock, clock, p, unguarded, 
             res = errs[tid][pc[tid]]
             pc[tid] += 1
             commit_errs.append(res)
-            if res == "ok":
-                tgt = None if op[0] == "A" else op[1]
-                spec.apply(op, u, before.get(tgt, (False, None))[0])
+            book(spec, op, u, before, res)
             lp.evaluate(ctx, p, spec, op, res, before, "threads", inp(), classify=classify_unsorted)
             ctx.note(f"thr-op:{op[0]}:{res}")
             before = snapshot(p)
@@ -390,10 +440,10 @@ def _scheduled_run(ctx, rng, u, A, T, period, sched, lock, clock, p, unguarded, 
     ctx.note(f"sched:threads{len(progs)}")
     ctx.note("sched:" + strategy)
     ctx.case("pg_sched",
-             [cfg_str(period, T), clock.enc(), ";".join(lp.enc_op(o) + " n" for o in setup),
+             [cfg_str(period, T, terminal), clock.enc(), ";".join(lp.enc_op(o) + " n" for o in setup),
               "|".join(";".join(lp.enc_op(o) + " n" for o in pr) for pr in progs), ev],
              " ".join(commit_errs) + f"@{clock.k}@0#" + lp.dump(p, u),
-             shape=f"t{len(progs)}", sample=f"{len(progs)} threads, schedule {ev[:80]}")
+             shape=f"t{len(progs)}" + ("T" if terminal else ""), sample=f"{len(progs)} threads, schedule {ev[:80]}")
     return p
 
 
@@ -429,15 +479,15 @@ def track_seq(ctx, n, mode, existing, setup_ops):
     out, heads = [], []
     kw = {} if total is None else {"total": total}
     try:
-        for v in p.track(seq, task_id=task_id, **kw):
+        for v in p.track(seq, task_id=task_id, description="d0", **kw):
             out.append(v)
-            heads.append(f"ok@{clock.k}@{'1' if p.finished else '0'}#" + lp.dump(p, u))
+            heads.append(f"ok@{clock.k}@{'1' if p.finished else '0'}0#" + lp.dump(p, u))
     except lp.DomainError:
         raise
     except Exception as e:  # noqa: BLE001
         ctx.check(False, "track:raised", (mode, n, existing), f"track() raised {type(e).__name__}: {e}")
         return
-    heads.append(f"ok@{clock.k}@{'1' if p.finished else '0'}#" + lp.dump(p, u))
+    heads.append(f"ok@{clock.k}@{'1' if p.finished else '0'}0#" + lp.dump(p, u))
     tid = task_id if existing else len([o for o in setup_ops if o[0] == "A"])
     t = next((x for x in p.tasks if x.id == tid), None)
     if t is None:
@@ -476,7 +526,7 @@ def track_thread(ctx, n, existing, close_after=None):
     rp._TrackThread = lp.make_track_thread_class(sched, seen)
     try:
         def consumer():
-            gen = p.track(iter(items), total=n, task_id=0 if existing else None, update_period=0.1)
+            gen = p.track(iter(items), total=n, task_id=0 if existing else None, description="d0", update_period=0.1)
             for v in gen:
                 out.append(v)
                 sched.yield_point("y")
@@ -535,6 +585,96 @@ def track_thread(ctx, n, existing, close_after=None):
              f"FINAL:{done}@{clock.k}!" + lp.dump(p, u), shape="thr", sample=f"track thread n={n} wakes={wakes}")
 
 
+def track_live(ctx, n, refresh_weight):
+    """The whole auto-refresh path under the scheduler, on a terminal console: `with progress:` (start()
+    spawns rich's _RefreshThread), `progress.track(...)` (spawns rich's _TrackThread), stop().  Three
+    threads; every operation is atomic under the lock, so the run is the sequential history of the
+    operations in lock-acquisition order — which is what the model is asked to reproduce."""
+    import rich.progress as rp
+
+    rng = ctx.rng
+    u = lp.Units(1, 2)
+    sched = lp.Sched()
+    lock = lp.LockProxy(sched)
+    clock = LazyClock(u, [0, 1, 3], rng=rng)
+    clock.hook = lambda: sched.yield_point("r") if (sched.current() is not None and not lock.held()) else None
+    p = lp.make_progress(clock, 60, u, lock=lock, auto_refresh=True, terminal=True)
+    seen, out, at_return = [], [], []
+    items = list(range(n))
+    orig = rp._TrackThread, rp._RefreshThread
+    rp._TrackThread = lp.make_track_thread_class(sched, seen)
+    rp._RefreshThread = lp.make_refresh_thread_class(sched)
+    try:
+        def consumer():
+            with p:
+                for v in p.track(iter(items), total=n, description="d0", update_period=0.1):
+                    out.append(v)
+                    sched.yield_point("y")
+                at_return.extend(t.completed for t in p._tasks.values())
+
+        sched.spawn("cons", consumer)
+        steps = 0
+        while True:
+            runnable = sched.runnable()
+            if not runnable:
+                break
+            r = rng.random()
+            if "refresh" in runnable and (r < refresh_weight or len(runnable) == 1):
+                tid = "refresh"
+            else:
+                tid = rng.choice([t for t in runnable if t != "refresh"] or runnable)
+            sched.step(tid)
+            steps += 1
+            if steps > 20000:
+                raise RuntimeError("track-live scheduler: no termination")
+    finally:
+        rp._TrackThread, rp._RefreshThread = orig
+    for who in ("cons", "track", "refresh"):
+        if sched.state.get(who) != "done":
+            raise RuntimeError(f"track-live scheduler: thread {who} is {sched.state.get(who)}")
+    for who, e in sched.exc.items():
+        if isinstance(e, (lp.DomainError, RuntimeError)):
+            raise e
+    site_in = (n, " ".join(f"{k}:{x}" for k, x in sched.events))
+    if sched.exc:
+        ctx.check(False, "track-live:raised", site_in, f"raised {sched.exc!r}")
+        return
+    wakes = [v for v, fl in seen if not fl]
+    finals = [v for v, fl in seen if fl]
+    ctx.check(out == items, "track-live:yields", site_in, f"yielded {out!r}")
+    ctx.check(finals == [n], "track-live:counter", site_in, f"helper thread's final count {finals}, elements {n}")
+    ctx.check(at_return == [n], "track-live:count-at-return", site_in, f"completed {at_return} when track() returned, elements {n}")
+    ts = p.tasks
+    ctx.check(len(ts) == 1 and ts[0].completed == n and ts[0].finished, "track-live:count", site_in,
+              f"after the run: {[(t.completed, t.finished) for t in ts]}")
+    ctx.check(not any(k == "r" for k, _ in sched.events), "threads:lock-discipline", site_in, "a clock read outside the lock")
+    # the history in lock-acquisition order
+    per = {"cons": iter([("B",), ("A", True, n, 0, True, 0, []), ("E",)]),
+           "track": iter([("V", 0, b - a) for a, b in zip([0] + wakes, wakes) if a != b] + [("U", 0, None, n, None, None, True)])}
+    hist, ok = [], True
+    for k, who in sched.events:
+        if k != "c":
+            continue
+        if who == "refresh":
+            hist.append(("F",))
+        else:
+            op = next(per[who], None)
+            if op is None:
+                ok = False
+                break
+            hist.append(op)
+    ok = ok and all(next(it, None) is None for it in per.values())
+    ctx.check(ok, "track-live:operations", site_in, "lock acquisitions do not match start / add_task / advances / final update / stop")
+    if not ok:
+        return
+    ctx.note(f"track-live:refreshes{min(sum(1 for o in hist if o == ('F',)), 5)}")
+    ctx.note(f"track-live:advances{min(sum(1 for o in hist if o[0] == 'V'), 4)}")
+    enc = [lp.enc_op(o) + " q" for o in hist[:-1]] + [lp.enc_op(hist[-1]) + " d"]
+    ctx.case("pg_hist", [cfg_str(60, 2, True), clock.enc(), ";".join(enc)],
+             f"ok@{clock.k}@{'1' if p.finished else '0'}{'1' if p._started else '0'}#" + lp.dump(p, u),
+             shape="live", sample=f"with progress: track({n}) with refresh + track threads: " + " ".join(lp.enc_op(o)[0] for o in hist))
+
+
 def track_real_timing(ctx, n):
     """real _TrackThread and _RefreshThread with real Events (nondeterministic batches): only the
     statement is evaluated"""
@@ -589,9 +729,7 @@ def terminal_histories(ctx, count):
             before = snapshot(p)
             res = lp.apply_op(p, op, u, glue=n)
             done.append(lp.enc_op(op))
-            if res == "ok":
-                tgt = None if op[0] == "A" else op[1]
-                spec.apply(op, u, before.get(tgt, (False, None))[0])
+            book(spec, op, u, before, res)
             lp.evaluate(ctx, p, spec, op, res, before, "terminal", list(done))
             if n % 3 == 0:
                 try:
@@ -629,50 +767,126 @@ def percentages(ctx):
     ctx.flush()
 
 
+class Stub:
+    """stands in for Ctx inside a worker process: collects cases, checks and notes for the parent"""
+
+    def __init__(self, quick, seed, key):
+        self.quick = quick
+        self.tier = "quick" if quick else "thorough"
+        self.seed = seed
+        self.rng = random.Random(f"{seed}/{key}")
+        self.cases, self.fails = [], {}
+        self.calls, self.notes = collections.Counter(), collections.Counter()
+
+    def case(self, fn, args, ans, shape=None, sample=None):
+        self.cases.append((fn, [str(a) for a in args], str(ans), shape, sample))
+
+    def check(self, ok, site, inp, what, finding=None):
+        self.calls[site] += 1
+        if not ok:
+            r = repr(inp)
+            old = self.fails.get((site, finding))
+            if old is None or len(r) < len(old[0]):
+                self.fails[(site, finding)] = (r, what)
+            self.notes["PROPFAIL:" + site + (":" + finding if finding else "")] += 1
+        return bool(ok)
+
+    def note(self, key, n=1):
+        self.notes[key] += n
+
+    def flush(self):
+        pass
+
+
+def _job(job):
+    kind, quick, seed, key, arg = job
+    lp.STATS.clear()
+    st = Stub(quick, seed, key)
+    if kind == "exh":
+        exhaustive_part(st, *arg)
+    elif kind == "rand":
+        random_histories(st, arg)
+    elif kind == "sched":
+        for i in range(arg):
+            nt = st.rng.choice([2, 2, 3, 3, 4] if i % 8 else [5, 6, 8])
+            scheduled_run(st, nt, 3 if nt <= 4 else 2)
+    elif kind == "thr":
+        for i in range(arg):
+            n = st.rng.randint(0, 7)
+            existing = st.rng.random() < 0.3
+            close_after = st.rng.randint(1, n) if n and st.rng.random() < 0.15 else None
+            track_thread(st, n, existing, close_after)
+    elif kind == "live":
+        for i in range(arg):
+            track_live(st, st.rng.randint(0, 6), st.rng.choice([0.1, 0.3, 0.5]))
+    elif kind == "term":
+        terminal_histories(st, arg)
+    return st.cases, dict(st.calls), st.fails, dict(st.notes), dict(lp.STATS)
+
+
+def parallel(ctx, jobs):
+    """run jobs in worker processes (each with its own rng derived from the seed and the job key, so a
+    seed replays), merge their cases / checks / notes into ctx in job order"""
+    with multiprocessing.get_context("fork").Pool(min(12, max(2, (multiprocessing.cpu_count() or 4) - 2))) as pool:
+        for cases, calls, fails, notes, stats in pool.imap(_job, jobs):
+            for fn, args, ans, shape, sample in cases:
+                ctx.case(fn, args, ans, shape=shape, sample=sample)
+            nf = collections.Counter(site for (site, _f) in fails)
+            for site, n in calls.items():
+                ctx.dist["prop:" + site] += n - nf[site]
+            for (site, finding), (inp, what) in fails.items():
+                ctx.check(False, site, inp, what, finding=finding)
+            for k, v in notes.items():
+                if not k.startswith("PROPFAIL:"):
+                    ctx.note(k, v)
+                else:
+                    ctx.dist[k] += max(v - 1, 0)
+            lp.STATS.update(stats)
+            ctx.flush()
+
+
 def run(ctx):
     ctx.assumptions += [
         "amounts and clock readings are integers or dyadic fractions (units 1/A, 1/T with A,T powers of two, magnitudes < 2^62/A for ints, floats exact): on these every + - comparison of the real float/int arithmetic is exact and equals the model's Int arithmetic",
         "ratios (percentage, speed, time_remaining) are compared through exact fractions computed from the real task's raw fields; the real float getters must equal them up to relative 1e-11 (decision), the ceiling of time_remaining up to that slack",
-        "description and user fields of a task are not modelled (exercised as glue only)",
-        "refresh() is a no-op on the non-terminal console used for the correspondence; the terminal run evaluates the statement only",
+        "description is an opaque id (strings d<n>), user fields a dict f<k> -> int in insertion order",
+        "refresh() reads the clock 5 times per visible task on a terminal console with the default columns (model parameter refreshReads, validated by every terminal run) and does nothing otherwise; what it writes is not modelled",
         "threads: one step = code between two yield points (clock read outside the lock / outermost lock acquisition / Event.wait of the track thread); a thread holding the lock is never preempted, so preemption inside a body and inside a source line is not exhibited",
     ]
     quick = ctx.quick
     percentages(ctx)
-    n_ex = exhaustive(ctx)
-    ctx.note("exhaustive-histories", n_ex)
-    random_histories(ctx, 2500 if quick else 40000)
-    long_history(ctx, 2 if quick else 8)
     f21_directed(ctx)
-    for i in range(1500 if quick else 25000):
-        nt = ctx.rng.choice([2, 2, 3, 3, 4] if i % 8 else [5, 6, 8])
-        scheduled_run(ctx, nt, 3 if nt <= 4 else 2)
-        if i % 500 == 499:
-            ctx.flush()
-    ctx.flush()
+    long_history(ctx, 2 if quick else 8)
     for n in range(0, 6 if quick else 12):
         for mode in ("list", "gen", "range", "total+2"):
             for existing in (False, True):
                 track_seq(ctx, n, mode, existing, [("A", True, 7, 2, True)] if existing else ([] if n % 2 else [("A", False, 3, 1, True)]))
-    for i in range(150 if quick else 3000):
-        n = ctx.rng.randint(0, 7)
-        existing = ctx.rng.random() < 0.3
-        close_after = ctx.rng.randint(1, n) if n and ctx.rng.random() < 0.15 else None
-        track_thread(ctx, n, existing, close_after)
     ctx.flush()
+    jobs = []
+    na = len(alphabet())
+    for L in range(1, (3 if quick else 4) + 1):
+        jobs += [("exh", quick, ctx.seed, f"exh{L}.{i}", (L, i)) for i in range(na)]
+    chunks = 12 if quick else 96
+    jobs += [("rand", quick, ctx.seed, f"rand{i}", (3000 if quick else 60000) // chunks) for i in range(chunks)]
+    jobs += [("sched", quick, ctx.seed, f"sched{i}", (2400 if quick else 48000) // chunks) for i in range(chunks)]
+    jobs += [("thr", quick, ctx.seed, f"thr{i}", (240 if quick else 4800) // chunks) for i in range(chunks)]
+    jobs += [("live", quick, ctx.seed, f"live{i}", (240 if quick else 4800) // chunks) for i in range(chunks)]
+    jobs += [("term", quick, ctx.seed, f"term{i}", (120 if quick else 2400) // chunks) for i in range(chunks)]
+    parallel(ctx, jobs)
     for n in ([0, 1, 50, 400] if quick else [0, 1, 2, 50, 400, 3000, 20000]):
         track_real_timing(ctx, n)
     track_errors(ctx)
-    terminal_histories(ctx, 60 if quick else 1500)
     for k, v in sorted(lp.STATS.items()):
         ctx.note(k, v)
     ctx.rule = (
-        "sequential: every history of <= %d operations over a 21-symbol alphabet (one representative per branch of "
-        "advance/update/reset/start/stop/add/remove, amounts below/at/above the total, zero and negative) x clock patterns, "
+        "sequential: every history of <= %d operations over a 26-symbol alphabet (one representative per branch of "
+        "advance/update/reset/start/stop/add/remove/refresh/Progress.start/stop, amounts below/at/above the total, zero and "
+        "negative, description and field updates) x clock patterns x terminal/non-terminal console, "
         "then seeded adaptive random histories (1-30 ops, several tasks, units 1/1..1/16, totals zero/negative/huge, "
         "periods 0..30 s with increments at the pruning boundary) and >1000-sample histories; threads: 2-8 real threads x "
         "1-3 ops under uniform / readers-first / PCT schedules at the read and lock yield points; track: lengths 0..n over "
-        "list/generator/range, fresh or existing task, helper thread under random schedules; distinct = distinct canonical requests"
+        "list/generator/range, fresh or existing task, helper thread under random schedules, and `with progress: track()` with "
+        "rich's refresh and track threads (3 threads) on a terminal console; distinct = distinct canonical requests"
         % (3 if quick else 4)
     )
 
@@ -681,15 +895,18 @@ def dec_op(s):
     t = s.split(" ")
     b = lambda x: None if x == "_" else x == "1"
     i = lambda x: None if x == "_" else int(x)
+    f = lambda x: [] if x == "-" else [tuple(int(y) for y in kv.split(":")) for kv in x.split(",")]
     k = t[0]
     if k == "A":
-        return ("A", b(t[1]), int(t[2]), int(t[3]), b(t[4]))
+        return ("A", b(t[1]), int(t[2]), int(t[3]), b(t[4]), int(t[5]), f(t[6]))
     if k in "SPD":
         return (k, int(t[1]))
     if k == "U":
-        return ("U", int(t[1]), i(t[2]), i(t[3]), i(t[4]), b(t[5]), b(t[6]))
+        return ("U", int(t[1]), i(t[2]), i(t[3]), i(t[4]), b(t[5]), b(t[6]), i(t[7]), f(t[8]))
     if k == "R":
-        return ("R", int(t[1]), b(t[2]), i(t[3]), int(t[4]), b(t[5]))
+        return ("R", int(t[1]), b(t[2]), i(t[3]), int(t[4]), b(t[5]), i(t[6]), f(t[7]))
+    if k in "FBE":
+        return (k,)
     return ("V", int(t[1]), int(t[2]))
 
 
@@ -698,6 +915,12 @@ def replay(ctx, case):
     print("site:", case.get("site"))
     print("what:", case.get("what"))
     inp = case.get("input")
+    if isinstance(inp, str):
+        import ast
+        try:
+            inp = ast.literal_eval(inp)
+        except (ValueError, SyntaxError):
+            pass
     if str(case.get("site", "")).startswith("threads") and isinstance(inp, dict) and "schedule" in inp:
         setup = [dec_op(o) for o in inp["setup"]]
         progs = [[dec_op(o) for o in pr] for pr in inp["threads"]]
@@ -714,35 +937,42 @@ def replay(ctx, case):
 MANIFEST = {
     "text": "Lean 4 theorems (Props/C12.lean; no bound on the number of operations, tasks, threads or on the schedule; "
     "amounts and clock readings arbitrary integers in units 1/A step, 1/tps second) about an executable model of "
-    "rich/progress.py (Task, add_task/start_task/stop_task/update/reset/advance/remove_task, percentage/finished/"
-    "elapsed/speed/time_remaining, Progress.track, _TrackThread, and a thread step machine: clock read outside the lock, "
-    "atomic body under the lock): completed_exact (last explicitly set value + advances since, by induction over "
-    "histories incl. failing ops, other tasks, removals), percentage_spec (fraction literally 100*completed/total, "
-    "clamped, 0 for total 0, both signs of total), finished_after_reaching_total, finish_time_stable (until reset / "
-    "update(total=)), speed_nonneg and remaining_nonneg_when_running (invariants: samples sorted by timestamp and "
-    "non-negative on a monotone clock; started & unfinished & has samples => completed < total), "
-    "accounting_linearizable (for every schedule the counters equal the sequential history in lock-acquisition order, "
-    "on any clock, either code variant) with completed_exact_all_schedules, fixed_schedules_are_sequential + "
-    "speed_nonneg_all_schedules for the repaired variant (what /repo contains now, fix b790bf0), the machine-checked witness "
-    "old_speed_negative_under_schedule for rich 9.10.0 as found (F21: 2 threads, 4 events, speed -1, remaining -98 s) and remaining_negative_if_advanced_unstarted (why the "
-    "hypothesis 'running whenever it advances' is needed), track_counts / track_thread_counts (any batching by the "
-    "helper thread). Tie: the model is run against real rich on an injected clock - every history of <=3 (thorough 4) "
-    "ops over a 21-symbol alphabet, seeded adaptive random histories, >1000-sample histories, compared after every "
-    "operation on all task fields, the sample deque, derived values, Progress.finished, number of clock reads and "
-    "error kind; 2-8 real threads under a deterministic scheduler (yield points: clock read outside the lock, "
-    "outermost lock acquisition) replayed step by step by the model; Progress.track over list/generator/range with "
-    "and without the helper thread (rich's own _TrackThread.run under the scheduler). Direct evaluation of the "
-    "statement on rich's own tasks with an independent spec tracker, incl. lock discipline (every mutator acquires "
-    "Progress._lock; no task field is written without it).",
+    "rich/progress.py: Task (incl. description, user fields, visible), add_task/start_task/stop_task/update/reset/advance/"
+    "remove_task, Progress.refresh/start/stop with the clock reads a refresh makes, percentage/finished/elapsed/speed/"
+    "time_remaining, Progress.track, _TrackThread, _RefreshThread (k wake-ups = k refreshes), and a thread step machine "
+    "(clock read outside the lock, atomic body under the lock). completed_exact (last explicitly set value + advances "
+    "since, by induction over histories incl. failing ops, other tasks, removals); percentage_spec and, over Q (Mathlib), "
+    "percentage_spec_rat = min 100 (max 0 (completed/total*100)) / 0 for total 0, speed_spec_rat, time_remaining_spec_rat "
+    "with the exact ceiling; finished_after_reaching_total; finish_time_stable; speed_nonneg and "
+    "remaining_nonneg_when_running (invariants: samples sorted by timestamp and non-negative on a monotone clock; started & "
+    "unfinished & has samples => completed < total); accounting_linearizable (for every schedule the counters, descriptions "
+    "and fields equal the sequential history in lock-acquisition order) with completed_exact_all_schedules; "
+    "refresh_threads_harmless (refresh/start/stop, any number of refresh threads, never change the task table); "
+    "fixed_schedules_are_sequential + speed_nonneg_all_schedules for today's code (clock read under the lock), the "
+    "machine-checked witness old_speed_negative_under_schedule of the repaired defect F21; task_ids_distinct, "
+    "task_ids_never_reused, add_task_id_fresh; elapsed_nonneg (elapsed and recorded finish time are >= 0 unless a stopped "
+    "task is reset) with the witness reset_after_stop_negative_elapsed showing that case satisfies every clause of C12; "
+    "track_counts / track_thread_counts (any batching by the helper thread). Tie: the model is run against real rich on an "
+    "injected clock - every history of <=3 (thorough 4) ops over a 26-symbol alphabet, seeded adaptive random histories, "
+    ">1000-sample histories, on non-terminal and terminal consoles, compared after every operation on all task fields, the "
+    "sample deque, derived values, Progress.finished/_started, number of clock reads and error kind; 2-8 real threads under "
+    "a deterministic scheduler replayed step by step by the model; Progress.track over list/generator/range with and "
+    "without the helper thread, and the whole auto-refresh path (`with progress: track(...)` with rich's own _RefreshThread "
+    "and _TrackThread run loops under the scheduler, 3 threads) reproduced by the model as the history in lock-acquisition "
+    "order. Direct evaluation of the statement on rich's own tasks with an independent spec tracker, incl. lock discipline, "
+    "ids never reused, and non-negative elapsed outside the reset-after-stop case.",
     "note": "Trusted: Lean kernel; axioms propext/Classical.choice/Quot.sound; the correspondence harness incl. the "
     "scheduler. Exact-in-double inputs only (integers and dyadic fractions): float rounding of +/- is outside the model; "
     "ratios are compared as exact fractions computed from the real task's raw fields, the real float getters must match "
     "them to 1e-11 relative. A thread holding the lock is never preempted and preemption inside a source line is not "
-    "exhibited (GIL-level atomicity of `+=` on attributes is not modelled): 'no lost update' rests on the checked lock "
-    "discipline. description/fields of a task, rendering columns (filesize, bar) and _RefreshThread are not modelled; "
-    "ProgressBar.percentage_completed is compared on a grid only. refresh() is a no-op in the correspondence runs "
-    "(non-terminal console); a terminal run evaluates the statement only. The real-timing track() runs are not "
-    "seed-replayable (they only evaluate the statement). Sequential quirk outside the statement: reset() does not "
-    "clear stop_time, so elapsed/finished_time can be negative after stop_task; reset.",
+    "exhibited: 'no lost update' rests on the checked lock discipline. refresh() is modelled only by the number of clock "
+    "reads it makes (model parameter: 5 per visible task with the default columns on a terminal, 0 otherwise); what it "
+    "writes, custom columns, and rendering errors are not modelled - observed and excluded from terminal runs: "
+    "refresh()/start()/update(refresh=True) raise OverflowError when a task's time_remaining exceeds timedelta's range "
+    "(TimeRemainingColumn; e.g. total=2**50 at 0.5 steps/s). description is an opaque id, user fields an int-valued dict. "
+    "Outside the statement (decided on the real code, see Props/C12.lean): reset() does not clear stop_time, so elapsed / "
+    "the recorded finish time are negative for a task reset while stopped; every clause of C12 still holds of it. "
+    "The real-timing track() runs are not seed-replayable (they only evaluate the statement). Generators run in worker "
+    "processes with rngs derived from (seed, job key), so a seed replays.",
     "design_ref": "DESIGN.md section 7, C12; pre-finding F21 (section 8)",
 }
